@@ -127,6 +127,17 @@ CHECKS.update({
          "register the format carries, border, latch+lock, all RAM and the non-inheritance of halt/prefix/EI judged."),
    note="Trusted: TLC, the RAM-bank read hook, the harness' independent SNA writer. Sampling over machine states."),
 })
+CHECKS.update({
+ "C14": dict(
+   category="model_checking", design_ref="4 (C13/C14)", technique="TLC validation of machines loaded from independently written SNA/SZX/SCR files against the TLA+ description they were written from",
+   text=("Random machine descriptions are serialised by the harness' own SNA and SZX writers (stored and zlib pages, shuffled chunk order, unknown chunks, "
+         "HALTED/EILAST flags, AY and mouse blocks) and loaded into fresh, halted, mid-prefix, paging-locked, EI-shadow emulators and into an emulator of "
+         "the other model. SnapshotTrace requires: every register, IFF1/IFF2, IM, halted and EI-pending status, latch+lock, border and all RAM equal the "
+         "description, AY registers read back through the ports, an audible AY description produces sound, mouse presence follows the file, a halted "
+         "machine stays halted, nothing is inherited from the receiver, and files of the other model are rejected. Since every encoding is judged against "
+         "the same description, equivalent files yield equal machines. SCR files load to 0x4000..0x5AFF (display decode is C08)."),
+   note="Trusted: TLC, the harness' writers (SZX layout from the format description), miniz_oxide for zlib. Sampling over descriptions."),
+})
 NOT_YET = {}
 
 HOOK_COMMITS = ["71990aa"]
